@@ -7,3 +7,12 @@ claim('C07', 'other',
       'Static dominance/effect analysis on MIR: every persistent effect in the frame handlers (Session::handle_rx, Otaa::handle_rx, Mac::handle_rx/handle_rxc, delegated multicast handler) is dominated by the accepting edge; NoUpdate arms of both front-ends perform no effect and return the unchanged state. Decides the mechanism ("no persistent write before acceptance"), for all frames and histories; not 2-safety of all later behaviour.',
       'Trusted: rustc MIR construction; may-write summaries (unknown externals with &mut are writers except listed reference adapters); receive-buffer-only state out of scope per the property.',
       'static analysis: CFG dominance + interprocedural may-write effect summaries on borrowck-stage MIR', 'DESIGN.md 4/C07')
+
+claim('C05', 'other',
+      'Static SAME-VALUE / dominance analysis of Session::handle_rx on MIR: one reconstructed counter flows to MIC check, store and decryption; MIC key is the network session key; all effects behind the MIC-true edge; stale counter returns NoUpdate without effect; size test is len > window max_payload_len + 5 with the limit bound to the receiving window in both front-ends; complete writer set of fcnt_down; arithmetic post-condition of next_fcnt_down by abstract interpretation (when the absint clause is present in the evidence). Decides these structural clauses for all frames/histories; not MIC arithmetic, not completeness of the reconstruction.',
+      'Trusted: rustc MIR construction; SAME-VALUE over single-assignment def chains; may-write summaries.',
+      'static analysis: def-chain SAME-VALUE + CFG dominance + who-writes on MIR', 'DESIGN.md 4/C05')
+claim('C06', 'other',
+      'Static who-writes / shape / must-pass-through analysis: complete writer set of Session.fcnt_up with +1 shape and exhaustion guard (SessionExpired instead of wrap); prepare_buffer uses the full 32-bit counter; on every path of both front-ends between handing a frame to the radio and the next frame preparation an increment occurs - exits where it does not are enumerated individually (known findings: error exits of the async send chain, two nb Idle exits).',
+      'Trusted: rustc MIR construction incl. coroutine bodies; await recognition (into_future/poll/yield pattern). External writes to the pub field fcnt_up are not analysed.',
+      'static analysis: who-writes + forward may-dataflow (must-pass-through) over async and nb state-machine MIR', 'DESIGN.md 4/C06')
